@@ -4,7 +4,7 @@
    where they are compared bit for bit with the implementation on every run. *)
 From Coq Require Import Reals ZArith.
 From Flocq Require Import Core IEEE754.BinarySingleNaN.
-From PrismV Require Import Num.F64 Mat.Mat3G Mat.Mat3 Mat.Mat3F Mat.Dot3.
+From PrismV Require Import Num.F64 Mat.Mat3G Mat.Mat3 Mat.Mat3F Mat.Dot3 Mat.SingularF.
 Open Scope R_scope.
 
 Theorem C20_inverse_is_two_sided : forall m, det m <> 0 -> mulM (inverse m) m = ident /\ mulM m (inverse m) = ident.
@@ -81,3 +81,11 @@ Theorem C20_transpose_float64_exact : forall m : matF,
   (v0 (c2 (transposeF m)) = v2 (c0 m) /\ v1 (c2 (transposeF m)) = v2 (c1 m) /\ v2 (c2 (transposeF m)) = v2 (c2 m)).
 Proof. exact transposeF_exact. Qed.
 Print Assumptions C20_transpose_float64_exact.
+
+(* building block of the singular clause in floats (partial: the whole float determinant of a matrix with a
+   repeated column is evaluated by the model on every generated singular matrix): x + (-x) is a zero, so
+   `det == 0` holds, for EVERY finite binary64 x *)
+Theorem C20_float64_cancellation_partial : forall x : f64,
+  BinarySingleNaN.is_finite x = true -> is_zero64 (add64 x (neg64 x)) = true.
+Proof. exact add_opp_is_zero. Qed.
+Print Assumptions C20_float64_cancellation_partial.
